@@ -1,5 +1,10 @@
 import CuqiVerif.Model.Proto
 import CuqiVerif.Model.C09
+import CuqiVerif.Model.C09_target
+import CuqiVerif.Model.C09_tune
+import CuqiVerif.Model.C09_strategy
+import CuqiVerif.Model.C09_shape
+import CuqiVerif.Model.C09_array
 open CuqiVerif CuqiVerif.Proto CuqiVerif.C09
 
 /-!
@@ -13,13 +18,32 @@ open CuqiVerif CuqiVerif.Proto CuqiVerif.C09
      NSTEPS `1,-,3`              num_sampling_steps (`-` = key absent)
      UINIT  `-;1;-`              `initial_point` given by the user (`-` = None)
      DINIT  `1;1;0,0,0`          the sampler's default initial point
-     CALLS  `3,4@2:1:0`          sweeps per warmup/sample call; `@a:b:c` = num_sampling_steps re-assigned
-                                 (all names, in NAMES order) before that call
+     CALLS  `3,W1/10!4@2:1:0`    sweeps per call: `k` = sample(k), `W<tune_freq>!k` = warmup(k, tune_freq) (tune_freq = the exact
+                                 rational value of the float); `@a:b:c` = num_sampling_steps re-assigned (all names, in NAMES
+                                 order) before that call
+     output sections (` # `): events, draws consumed, stored tuples, initial points, tuning calls
+                                 `nStored:pos:name:skip_len:update_count` (`_` = none)
      DRAWS  `1|3/2;0|1,1;…`      transitions in call order: `acc|point` (`_` = none)
   `lg NAMES INITPTS DIMS CALLS DRAWS`
      INITPTS `-;1,2;-`           `init_point` attribute of the block's density (`-` = absent)
      CALLS   `3:2,4:0`           `sample(Ns, Nb)` calls
      DRAWS   `1;2,3;…`           value returned by each `sampler.step(x)` in call order
+  `ar DIM OPS`                    one block's sample array of legacy Gibbs (Model/C09_array.lean)
+     OPS      `A3;S0:1,2;S1:3,4;L;A2;S3:5,6`  `A<Ns>` = `_allocate_samples(Ns)`, `S<i>:<v>` = `samples[:, i] = v`, `L` = `samples[:, -1]`
+     output   `<result of every L: vector / IndexError / absent>;…|<dim>x<width>:<rows>` (`absent` = no attribute `samples`)
+  `sh NAMES INIT SWEEPS`          type/shape of the objects HybridGibbs stores (Model/C09_shape.lean)
+     INIT     `s,a3,l2`          kind of each sampler's `initial_point` object: `s` python scalar, `l<d>` list, `a<d1>x<d2>…` ndarray (`a` = 0-d)
+     SWEEPS   `s,a3,a2;a1,a3,a2` per sweep the kind of each sampler's `current_point` at write-back (`_` = no sweep)
+     output   `<stored kinds per sweep>;…|<n>=<shape of get_samples()[n] or ValueError>,…`
+  `ls STRATEGY NAMES`             legacy `Gibbs.__init__` / the look-up in `step` (Model/C09_strategy.lean)
+     STRATEGY `d+l=0;x=1;(q)=2`  keys in dictionary order: `a+b` = tuple key `('a','b')`, `(a)` = 1-tuple `('a',)`, plain name; `=id` of the sampler
+     NAMES    `d,l,x`            par_names
+     output   `<id or ->,…|<outcome of the first sweep: ok:<k blocks advanced> / KeyError:<k>:<name>>`
+  `tg FACTORS DATA`               the objects handed to the block samplers (Model/C09_target.lean on top of Model/C01.lean)
+     FACTORS `d:1:.|x:3:d|y:4:x+l|l:1:.`  the densities of the user's JointDistribution in order: name:dim:conditioning variables
+     DATA    `y` / `.`            the variables the user conditioned on (observed data)
+     output  `ok|<par_names>|<n>=<object handed to block n>|…` — `Posterior[L:y:x;D:x:.]`, `Distribution[D:w:.]`,
+             `MultipleLikelihoodPosterior[D:d:.;L:x:d;L:w:d;E:y;…]`, `JointDistribution[…]`; `err|Class` when the constructor raises
 -/
 
 abbrev Val := List Rat
@@ -73,14 +97,24 @@ def hasDup : List String → Bool
 def parseOptVec (s : String) : Option (Option Val) :=
   if s = "-" then some none else (fun v => some v) <$> parseVec s
 
-def parseHCall (k : Nat) (s : String) : Option (Nat × Option (List Int)) :=
+/-- `4` (sample) or `W<tune_freq>!4` (warmup) -/
+def parseCount (a : String) : Option (Nat × Option Rat) :=
+  if a.startsWith "W" then
+    match (a.drop 1).toString.splitOn "!" with
+    | [f, c] => do let tf ← parseRat f; let n ← c.toNat?; pure (n, some tf)
+    | _ => none
+  else (fun n => (n, none)) <$> a.toNat?
+
+def parseHCall (k : Nat) (s : String) : Option (Nat × Option (List Int) × Option Rat) :=
   match s.splitOn "@" with
-  | [a] => (fun n => (n, none)) <$> a.toNat?
+  | [a] => (fun c => (c.1, none, c.2)) <$> parseCount a
   | [a, b] => do
-    let n ← a.toNat?
+    let c ← parseCount a
     let ns ← (b.splitOn ":").mapM (fun t => t.toInt?)
-    if ns.length = k then pure (n, some ns) else none
+    if ns.length = k then pure (c.1, some ns, c.2) else none
   | _ => none
+
+def fmtTune (t : TuneEv String) : String := s!"{t.nStored}:{t.pos}:{t.name}:{t.skipLen}:{t.updateCount}"
 
 /-- `3` / `-` (no key) / `3!` (the object is already initialized) -/
 def parseSid (s : String) : Option (Option Nat × Bool) :=
@@ -89,7 +123,7 @@ def parseSid (s : String) : Option (Option Nat × Bool) :=
   else (fun k => (some k, false)) <$> s.toNat?
 
 def runHG (names : List String) (flags : List (Bool × Bool × Bool)) (sids : List (Option Nat × Bool))
-    (nsteps : List (Option Int)) (uinit : List (Option Val)) (dinit : List Val) (calls : List (Nat × Option (List Int)))
+    (nsteps : List (Option Int)) (uinit : List (Option Val)) (dinit : List Val) (calls : List (Nat × Option (List Int) × Option Rat))
     (draws : List (Draw Val)) : String :=
   let k := names.length
   if flags.length != k || (sids.length != k && sids.length != k + 1) || nsteps.length != k
@@ -105,17 +139,22 @@ def runHG (names : List String) (flags : List (Bool × Bool × Bool)) (sids : Li
       let g0 : HG String Val := construct names (lookup names nsteps none) init
         (lookup names flags (false, false, false))
       let ds : Nat → Draw Val := fun i => draws.getD i ⟨[], false⟩
-      let runCall : HG String Val → (Nat × Option (List Int)) → HG String Val := fun g c =>
-        let g' := match c.2 with
-          | none => g
-          | some ns => reconfigure g (lookup names ns 1)
-        sampleN ds c.1 g'
-      let g := calls.foldl runCall g0
+      let runCall : HG String Val × List (TuneEv String) → (Nat × Option (List Int) × Option Rat) → HG String Val × List (TuneEv String) :=
+        fun st c =>
+        let g' := match c.2.1 with
+          | none => st.1
+          | some ns => reconfigure st.1 (lookup names ns 1)
+        match c.2.2 with
+        | none => (sampleN ds c.1 g', st.2)
+        | some tf => let r := warmupN ds tf c.1 g'; (r.1, st.2 ++ r.2)
+      let gt := calls.foldl runCall (g0, [])
+      let g := gt.1
       let need := g.pos
       if draws.length != need then s!"err|draws|{need}"
       else
         " ".intercalate (g.log.map fmtEv) ++ s!" # {g.pos} # " ++ " ".intercalate (g.stored.map fmtDict)
           ++ " # " ++ fmtDict (tuple names init)
+          ++ " # " ++ (if gt.2.isEmpty then "_" else " ".intercalate (gt.2.map fmtTune))
 
 def parseCall (s : String) : Option (Nat × Nat) :=
   match s.splitOn ":" with
@@ -153,7 +192,137 @@ def runLG (names : List String) (ipts : List (Option Val)) (dims : List Nat) (ca
     else
       " ".intercalate (g.log.map fmtLEv) ++ s!" # {g.pos} {tail} # " ++ fmtCols names g.samples ++ " # " ++ fmtCols names g.warm
 
+/-! ### `tg`: structure of the handed targets -/
+
+def descNames (l : List String) : String := if l.isEmpty then "." else "+".intercalate l
+
+def descDens : C01.Dens Val Rat → String
+  | .dist F env _ => "D:" ++ F.name ++ ":" ++ descNames (C01.free F env)
+  | .lik F env _ _ => "L:" ++ F.name ++ ":" ++ descNames (C01.free F env)
+  | .eval n _ _ => "E:" ++ n.getD "?"
+
+def descObj : C01.Obj Val Rat → String
+  | .joint fl ds => (C01.Obj.joint fl ds).kind ++ "[" ++ ";".intercalate (ds.map descDens) ++ "]"
+  | .post L P _ _ => "Posterior[" ++ descDens L ++ ";" ++ descDens P ++ "]"
+  | .single d => (C01.Obj.single d).kind ++ "[" ++ descDens d ++ "]"
+  | .none => "None"
+
+def parseFactor (s : String) : Option (C01.Factor Val Rat) :=
+  match s.splitOn ":" with
+  | [name, dim, params] => do
+    let d ← dim.toNat?
+    if name.isEmpty then none
+    else pure { name := name, params := if params = "." then [] else params.splitOn "+", dim := d, f := fun _ => 0 }
+  | _ => none
+
+def runTG (fs : List (C01.Factor Val Rat)) (data : List String) : String :=
+  match gibbsTarget fs (data.map (fun n => (n, ([] : Val)))) with
+  | .error e => "err|" ++ e.toString
+  | .ok P =>
+    let hs := handedAll P (fun _ => ([] : Val))
+    "ok|" ++ (if (parNames P).isEmpty then "." else ",".intercalate (parNames P)) ++ "|" ++ descObj P ++
+      String.join (hs.map (fun p => "|" ++ p.1 ++ "=" ++ (match p.2 with
+        | .ok o => descObj o
+        | .error e => "err:" ++ e.toString)))
+
+/-! ### `ar`: one block's legacy sample array -/
+
+inductive AOp | alloc (n : Nat) | store (i : Nat) (v : Val) | last
+
+def parseAOp (s : String) : Option AOp :=
+  if s = "L" then some .last
+  else if s.startsWith "A" then AOp.alloc <$> (s.drop 1).toString.toNat?
+  else if s.startsWith "S" then
+    match (s.drop 1).toString.splitOn ":" with
+    | [i, v] => do let k ← i.toNat?; let x ← parseVec v; pure (.store k x)
+    | _ => none
+  else none
+
+def runAR (dim : Nat) : List AOp → Option (List (List Rat)) → List String → String
+  | [], st, acc =>
+    ";".intercalate acc.reverse ++ "|" ++ (match st with
+      | none => "absent"
+      | some A => s!"{A.length}x{widthA A}:" ++ fmtMat A)
+  | .alloc n :: r, st, acc => runAR dim r (some (allocA 0 dim n st)) acc
+  | .store i v :: r, st, acc =>
+    match st with
+    | none => "err|AttributeError"
+    | some A =>
+      if v.length != dim then "bad-op"
+      else if i ≥ widthA A then "err|IndexError"
+      else runAR dim r (some (setColA A i v)) acc
+  | .last :: r, st, acc =>
+    match st with
+    | none => runAR dim r st ("absent" :: acc)
+    | some A => runAR dim r st ((match lastColA 0 A with | some c => fmtVec c | none => "IndexError") :: acc)
+
+/-! ### `sh`: kinds of the stored objects -/
+
+def parseKind (s : String) : Option Kind :=
+  if s = "s" then some .scalar
+  else if s.startsWith "l" then Kind.plist <$> (s.drop 1).toString.toNat?
+  else if s = "a" then some (.arr [])
+  else if s.startsWith "a" then Kind.arr <$> ((s.drop 1).toString.splitOn "x").mapM (fun t => t.toNat?)
+  else none
+
+def fmtKind : Kind → String
+  | .scalar => "s"
+  | .plist l => s!"l{l}"
+  | .arr sh => "a" ++ "x".intercalate (sh.map toString)
+
+def fmtShape : Option (List Nat) → String
+  | none => "ValueError"
+  | some sh => "ok:" ++ "x".intercalate (sh.map toString)
+
+def runSH (names : List String) (init : List Kind) (sweeps : List (List Kind)) : String :=
+  let k := names.length
+  if init.length != k || sweeps.any (fun sw => sw.length != k) || names.isEmpty || hasDup names then "bad-op"
+  else
+    let g0 := constructS names (lookup names init .scalar)
+    let g := runS (sweeps.map (fun sw => lookup names sw .scalar)) g0
+    let nsw := sweeps.length
+    let stored := (List.range nsw).map (fun j => ",".intercalate (names.map (fun n => match (g.samples n)[j]? with
+      | some kd => fmtKind kd
+      | none => "?")))
+    (if stored.isEmpty then "_" else ";".intercalate stored) ++ "|" ++
+      ",".intercalate (names.map (fun n => n ++ "=" ++ fmtShape (getSamplesS g n)))
+
+/-! ### `ls`: legacy strategy parsing -/
+
+def parseSKey (s : String) : Option (SKey String × Nat) :=
+  match s.splitOn "=" with
+  | [k, v] => do
+    let id ← v.toNat?
+    if k.startsWith "(" && k.endsWith ")" then pure (SKey.many [((k.drop 1).dropEnd 1).toString], id)
+    else if k.contains '+' then pure (SKey.many (k.splitOn "+"), id)
+    else pure (SKey.one k, id)
+  | _ => none
+
+def runLS (strategy : List (SKey String × Nat)) (names : List String) : String :=
+  let ids := names.map (fun n => match lassigned strategy n with | some i => toString i | none => "-")
+  let st0 : (String → Val) × Nat × List (LEv String Val) := (fun _ => [], 0, [])
+  let out := match lsweepChecked (fun n => (lassigned strategy n).isSome) (fun _ => ([] : Val)) names st0 with
+    | .ok s => s!"ok:{s.2.1}"
+    | .error s => s!"KeyError:{s.2.1}:{names.getD s.2.1 "?"}"
+  ",".intercalate ids ++ "|" ++ out
+
 def step : List String → String
+  | ["ar", dim, ops] =>
+    match dim.toNat?, (ops.splitOn ";").mapM parseAOp with
+    | some d, some os => if d = 0 then "bad-op" else runAR d os none []
+    | _, _ => "bad-op"
+  | ["sh", names, init, sweeps] =>
+    match parseList "," parseKind init, (if sweeps = "_" then some [] else (sweeps.splitOn ";").mapM (parseList "," parseKind)) with
+    | some i, some sw => runSH (names.splitOn ",") i sw
+    | _, _ => "bad-op"
+  | ["ls", strategy, names] =>
+    match (if strategy = "_" then some [] else (strategy.splitOn ";").mapM parseSKey) with
+    | some st => if names.isEmpty then "bad-op" else runLS st (names.splitOn ",")
+    | none => "bad-op"
+  | ["tg", factors, data] =>
+    match (factors.splitOn "|").mapM parseFactor with
+    | some fs => runTG fs (if data = "." then [] else data.splitOn ",")
+    | none => "bad-op"
   | ["hg", names, flags, sids, nsteps, uinit, dinit, calls, draws] =>
     match parseList "," some names, parseList "," parseFlag flags, parseList "," parseSid sids,
           parseList "," parseOptInt nsteps, parseList ";" parseOptVec uinit, parseMat dinit,
